@@ -42,6 +42,11 @@ def check_bounds(case):
         if not all(np.isfinite(v) and v >= 0 for v in vals.values()):
             out.fail("not_finite_or_negative", "element %d: %r for mobilities %r fractions %r" % (j, vals, mob[:, j].tolist(), f.tolist()), defined=bool(defined[j]))
             continue
+        # the Wiener bounds are the fraction-weighted harmonic and arithmetic means of the phase mobilities
+        hm = 1.0 / float(np.sum(f[present] / mob[present, j]))
+        am = float(np.sum(f[present] * mob[present, j]))
+        if abs(vals["wl"] - hm) > 1e-10 * hm or abs(vals["wu"] - am) > 1e-10 * am:
+            out.fail("wiener_not_mean", "element %d: lower/upper Wiener = %r / %r, harmonic/arithmetic mean of the phase mobilities = %r / %r (mobilities %r, fractions %r)" % (j, vals["wl"], vals["wu"], hm, am, mob[:, j].tolist(), f.tolist()))
         lo, hi = mob[present, j].min(), mob[present, j].max()
         seq = [lo, vals["wl"], vals["hl"], vals["hu"], vals["wu"], hi]
         names = ["min", "lower Wiener", "lower Hashin-Shtrikman", "upper Hashin-Shtrikman", "upper Wiener", "max"]
@@ -90,7 +95,7 @@ def _bounds_case(draw):
             else:
                 row.append(10 ** (base[j] + draw(st.floats(0, 8))))
         mob.append(row)
-    kind = draw(st.sampled_from(["random", "random", "one", "zeros"]))
+    kind = draw(st.sampled_from(["random", "random", "one", "zeros", "trace"]))
     if kind == "one" or p == 1:
         frac = [0.0] * p
         frac[draw(st.integers(0, p - 1))] = 1.0
@@ -100,13 +105,19 @@ def _bounds_case(draw):
             frac[draw(st.integers(0, p - 1))] = 0.0
             if sum(frac) == 0:
                 frac[0] = 1.0
+        if kind == "trace":
+            # a trace amount of one phase (it matters when that phase is much slower than the others)
+            k = draw(st.integers(0, p - 1))
+            frac[k] = 10 ** draw(st.floats(-14, -5))
+            if sum(frac) == frac[k]:
+                frac[(k + 1) % p] = 1.0
     return {"mob": mob, "frac": frac, "lab": draw(st.one_of(st.floats(1, 2), st.sampled_from([1.0, 2.0])))}
 
 
 def clauses():
     cl = [
         Clause("bounds", _bounds_case, check_bounds, quick=8000, thorough=400000,
-               rule="generator: 1-4 phases x 1-3 elements, mobilities log-uniform with ratio <= 1e8 per element, undefined entries (-1) with probability 0.2, fractions on the simplex incl. zeros and single-phase vectors, labyrinth factor in [1,2], up to 6 permutations of the phase axis; "
+               rule="generator: 1-4 phases x 1-3 elements, mobilities log-uniform with ratio <= 1e8 per element, undefined entries (-1) with probability 0.2, fractions on the simplex incl. zeros, trace amounts (1e-14..1e-5) and single-phase vectors, labyrinth factor in [1,2], up to 6 permutations of the phase axis; "
                     "columns containing an undefined entry are evaluated but not judged; oracle: min <= W_lo <= HS_lo <= HS_hi <= W_hi <= max on defined columns, single phase -> its mobility, permutation invariance, labyrinth(1)=W_hi and labyrinth(n)<=W_hi, finite and >= 0 everywhere; non-trivial: >= 2 phases present with distinct defined mobilities"),
     ]
     try:
